@@ -126,7 +126,7 @@ func LinkChildrenToParents(root Role) {
 func MakeDisabledRoleCallback(r Role) func(stage template.Stage, err error) error {
 	return func(stage template.Stage, err error) error {
 		if stage == template.STAGE0 { // only `enabled` has been processed so far
-			if !r.IsEnabled() {
+			if err == nil && !r.IsEnabled() {
 				rde := &template.RoleDisabledError{RolePath: r.GetPath()}
 				return rde
 			}
